@@ -7,6 +7,8 @@ lanes=${1:-2}
 pat=${2:-}
 cd /verif
 export VERIF_EVIDENCE_DIR=/var/tmp/verif-scratch/evidence-mut
+# a mutated tree only has to fail: no second chances for undecided obligations (much faster)
+export GOVC_NO_RETRY=1
 work=/var/tmp/verif-scratch/mutq.$$; mkdir -p $work
 ls selftest/must_fail/*${pat}*.patch 2>/dev/null | sed 's/^/M /' > $work/all
 for d in seeded/*${pat}*/; do [ -f ${d}patch.diff ] && echo "S ${d}patch.diff"; done >> $work/all
